@@ -15,9 +15,20 @@ pub struct Work {
 /// 2 = everything incl. growing where-clauses, hierarchy and builtin.
 pub fn workload(r: &mut Rng, k: u64, mix: u32, ngoals: usize) -> Work {
     let sel = match mix {
-        0 => k % 4,
-        1 => k % 7,
-        _ => k % 10,
+        0 => k % 5,
+        1 => k % 8,
+        _ => k % 11,
+    };
+    // one slot of every mix is the propositional fragment (dense cycles on a single struct)
+    let sel = match (mix, sel) {
+        (0, 4) | (1, 7) | (_, 10) => {
+            let coinductive = (k / 11) % 3 == 2;
+            let prog = gen_propositional(r, coinductive);
+            let goals = gen_propositional_goals(r, &prog, ngoals, !coinductive).into_iter().map(|g| (goal_text(&g), vec![], Some(g))).collect();
+            let text = program_text(&prog);
+            return Work { prog, text, goals, fragment: "propositional" };
+        }
+        (_, s) => s,
     };
     match sel {
         0..=3 | 7 => {
